@@ -4,21 +4,38 @@
 From Coq Require Import List NArith ZArith Bool Lia Arith String Ascii.
 From RPFT Require Import Base.Sexp Base.PyStr Base.PyStrFacts Base.Result Base.ODict Gen.Tables Cell.Cell
   Row.Ty Row.RowParse Row.FlowRow Row.ParseFold Row.Encodes Row.EncodesFacts Row.FlowHeaderFacts Row.EncodesExamples.
-From RPFT Require Row.Infer Row.InferFacts.
 Import ListNotations.
 Local Open Scope N_scope.
 
-Definition all_ws := Row.Infer.all_ws.
+(* a string of str.strip() whitespace *)
+Definition all_ws (s : str) : bool := forallb is_ws s.
+
+Lemma lstrip_ws_app w s : all_ws w = true -> lstrip (w ++ s) = lstrip s.
+Proof.
+  induction w as [|c w IH]; cbn; [reflexivity|]. rewrite andb_true_iff. intros [Hc Hw].
+  rewrite Hc. apply IH, Hw.
+Qed.
+
+Lemma rstrip_ws w : all_ws w = true -> rstrip w = [].
+Proof.
+  induction w as [|c w IH]; cbn; [reflexivity|]. rewrite andb_true_iff. intros [Hc Hw].
+  rewrite (IH Hw), Hc. reflexivity.
+Qed.
+
+Lemma rstrip_app_ws s w : all_ws w = true -> rstrip (s ++ w) = rstrip s.
+Proof.
+  intros Hw. induction s as [|c s IH]; cbn; [apply rstrip_ws, Hw|]. rewrite IH. reflexivity.
+Qed.
 
 (* str.strip() removes any run of whitespace characters on either side *)
 Lemma strip_pad w1 s w2 : all_ws w1 = true -> all_ws w2 = true -> strip (w1 ++ s ++ w2) = strip s.
 Proof.
-  intros H1 H2. unfold strip. rewrite Row.InferFacts.lstrip_ws_app by exact H1.
+  intros H1 H2. unfold strip. rewrite lstrip_ws_app by exact H1.
   induction s as [|c s IH].
   - cbn [app lstrip]. replace (lstrip w2) with (lstrip (w2 ++ [])) by (rewrite app_nil_r; reflexivity).
-    rewrite Row.InferFacts.lstrip_ws_app by exact H2. reflexivity.
+    rewrite lstrip_ws_app by exact H2. reflexivity.
   - cbn [app lstrip]. destruct (is_ws c); [exact IH|]. change (c :: s ++ w2) with ((c :: s) ++ w2).
-    apply Row.InferFacts.rstrip_app_ws. exact H2.
+    apply rstrip_app_ws. exact H2.
 Qed.
 
 Lemma oget_app_none_str {V} (a b : list (str * V)) k : oget str_eqb a k = None -> oget str_eqb (a ++ b) k = oget str_eqb b k.
